@@ -67,3 +67,46 @@ Fixpoint np_sum_fuel (fuel : nat) (a : list float) : float :=
                 PrimFloat.add (np_sum_fuel f (firstn n2 a)) (np_sum_fuel f (skipn n2 a))
        end.
 Definition np_sum (a : list float) : float := np_sum_fuel 64 a.
+
+(* ---- Python numbers: int (unbounded) or float, with Python's mixed arithmetic.
+   int op int stays int (plus, minus, times), anything involving a float converts the int with float(n) (correctly rounded,
+   round to nearest even); true division always yields a float; comparisons between an int and a float are EXACT
+   (CPython compares the mathematical values), e.g. 10**40 < 1e40 is True although float(10**40) == 1e40. *)
+Inductive pynum := PInt (z : Z) | PFlt (f : float).
+
+Definition big_float_of_Z (z : Z) : float := SF2Prim (binary_normalize 53 1024 z 0 false).
+Definition py_float (a : pynum) : float := match a with PInt z => big_float_of_Z z | PFlt f => f end.
+
+Definition py_add (a b : pynum) : pynum :=
+  match a, b with PInt x, PInt y => PInt (x + y) | _, _ => PFlt (PrimFloat.add (py_float a) (py_float b)) end.
+Definition py_sub (a b : pynum) : pynum :=
+  match a, b with PInt x, PInt y => PInt (x - y) | _, _ => PFlt (PrimFloat.sub (py_float a) (py_float b)) end.
+Definition py_mul (a b : pynum) : pynum :=
+  match a, b with PInt x, PInt y => PInt (x * y) | _, _ => PFlt (PrimFloat.mul (py_float a) (py_float b)) end.
+(* a / b with at least one float operand (int / int does not occur in the modelled code) *)
+Definition py_div (a b : pynum) : pynum := PFlt (PrimFloat.div (py_float a) (py_float b)).
+Definition py_opp (a : pynum) : pynum := match a with PInt x => PInt (- x) | PFlt f => PFlt (PrimFloat.opp f) end.
+Definition py_abs (a : pynum) : pynum := match a with PInt x => PInt (Z.abs x) | PFlt f => PFlt (PrimFloat.abs f) end.
+Definition py_sqrt (a : pynum) : pynum := PFlt (PrimFloat.sqrt (py_float a)).
+
+(* exact comparison; None when a NaN is involved *)
+Definition cmp_Z_float (x : Z) (g : float) : option comparison :=
+  match Prim2SF g with
+  | S754_nan => None
+  | S754_infinity s => Some (if s then Gt else Lt)
+  | S754_zero _ => Some (x ?= 0)%Z
+  | S754_finite s m e =>
+      let num := if s then Zneg m else Zpos m in
+      if (0 <=? e)%Z then Some (x ?= Z.shiftl num e)%Z else Some (x * Z.shiftl 1 (- e) ?= num)%Z
+  end.
+Definition py_cmp (a b : pynum) : option comparison :=
+  match a, b with
+  | PInt x, PInt y => Some (x ?= y)%Z
+  | PInt x, PFlt g => cmp_Z_float x g
+  | PFlt f, PInt y => match cmp_Z_float y f with Some c => Some (CompOpp c) | None => None end
+  | PFlt f, PFlt g =>
+      match PrimFloat.compare f g with FEq => Some Eq | FLt => Some Lt | FGt => Some Gt | FNotComparable => None end
+  end.
+Definition py_ltb (a b : pynum) : bool := match py_cmp a b with Some Lt => true | _ => false end.
+Definition py_leb (a b : pynum) : bool := match py_cmp a b with Some Lt | Some Eq => true | _ => false end.
+Definition py_eqb (a b : pynum) : bool := match py_cmp a b with Some Eq => true | _ => false end.
